@@ -81,6 +81,7 @@ class Contract:
     props: List[str] = field(default_factory=list)   # property ids served
     trusted: Optional[str] = None          # if set: contract is ASSUMED (not verified), with the reason
     hints: Dict[int, List[str]] = field(default_factory=dict)     # stmt ordinal -> lemma texts to assert+assume
+    loops_by_body: Dict[str, Dict[int, LoopSpec]] = field(default_factory=dict)
     ghost_params: Dict[str, Sort] = field(default_factory=dict)
     ghosts: Dict[str, Sort] = field(default_factory=dict)          # ghost locals (unconstrained at entry)
     ghost_after: Dict[str, List[str]] = field(default_factory=dict)  # stmt source text -> ["name = expr", ...]
@@ -116,9 +117,22 @@ class Contract:
         self.raises.append(Raises(exc, when, list(ensures)))
         return self
 
-    def loop(self, ordinal, inv=(), decreases=None, hints=()):
-        self.loops[ordinal] = LoopSpec(list(inv), decreases, {}, list(hints))
+    def loop(self, ordinal, inv=(), decreases=None, hints=(), body=None):
+        """Loop contract by ordinal; `body` restricts it to one of several bodies sharing the contract
+        (suffix of the target, e.g. "SyncInterpreter._exit_states")."""
+        spec = LoopSpec(list(inv), decreases, {}, list(hints))
+        if body is None:
+            self.loops[ordinal] = spec
+        else:
+            self.loops_by_body.setdefault(body, {})[ordinal] = spec
         return self
+
+    def loops_for(self, target):
+        short = target.split(":")[1]
+        for body, m in self.loops_by_body.items():
+            if short.endswith(body):
+                return m
+        return self.loops
 
     def ghost(self, name, sort):
         self.ghosts[name] = sort
